@@ -116,6 +116,8 @@ Framed == ok
 \* at the end the reader stands exactly at the end of the stream
 Consumed == k > Len(cfg.posts) => (ok => off = TotalLen(Stream(cfg.posts)))
 
+AllInv == Framed /\ Consumed
+
 -----------------------------------------------------------------------------
 (* E2: random configurations for execution on the real builder, merger and iterator *)
 
